@@ -103,3 +103,76 @@ pub fn event(site: &'static str, a: u64, b: u64) {
         (hooks.event)(site, a, b);
     }
 }
+
+/// Reader-writer lock used by [`crate::sharded::Sharded`] when the feature is
+/// on: every acquisition is a thread-level scheduling point, and a blocking
+/// acquisition that finds the lock taken goes back to the scheduler instead of
+/// blocking the OS thread (the holder may be parked at a scheduling point).
+/// The guards are `parking_lot`'s, so callers are unchanged; methods that are
+/// not wrapped here reach the inner lock through `Deref`.
+pub struct RwLock<T>(parking_lot::RwLock<T>);
+
+impl<T> std::fmt::Debug for RwLock<T> {
+    fn fmt(&self, f: &mut std::fmt::Formatter<'_>) -> std::fmt::Result {
+        f.debug_struct("RwLock").finish_non_exhaustive()
+    }
+}
+
+impl<T> RwLock<T> {
+    /// See [`parking_lot::RwLock::new`].
+    pub const fn new(value: T) -> Self { Self(parking_lot::RwLock::new(value)) }
+
+    /// See [`parking_lot::RwLock::read`].
+    pub fn read(&self) -> parking_lot::RwLockReadGuard<'_, T> {
+        thread_point("shard_lock_read");
+        loop {
+            if let Some(guard) = self.0.try_read() {
+                return guard;
+            }
+            thread_point("shard_lock_wait");
+            std::thread::yield_now();
+        }
+    }
+
+    /// See [`parking_lot::RwLock::read_recursive`].
+    pub fn read_recursive(&self) -> parking_lot::RwLockReadGuard<'_, T> {
+        thread_point("shard_lock_read");
+        loop {
+            if let Some(guard) = self.0.try_read_recursive() {
+                return guard;
+            }
+            thread_point("shard_lock_wait");
+            std::thread::yield_now();
+        }
+    }
+
+    /// See [`parking_lot::RwLock::write`].
+    pub fn write(&self) -> parking_lot::RwLockWriteGuard<'_, T> {
+        thread_point("shard_lock_write");
+        loop {
+            if let Some(guard) = self.0.try_write() {
+                return guard;
+            }
+            thread_point("shard_lock_wait");
+            std::thread::yield_now();
+        }
+    }
+
+    /// See [`parking_lot::RwLock::try_read`].
+    pub fn try_read(&self) -> Option<parking_lot::RwLockReadGuard<'_, T>> {
+        thread_point("shard_lock_try_read");
+        self.0.try_read()
+    }
+
+    /// See [`parking_lot::RwLock::try_write`].
+    pub fn try_write(&self) -> Option<parking_lot::RwLockWriteGuard<'_, T>> {
+        thread_point("shard_lock_try_write");
+        self.0.try_write()
+    }
+}
+
+impl<T> std::ops::Deref for RwLock<T> {
+    type Target = parking_lot::RwLock<T>;
+
+    fn deref(&self) -> &Self::Target { &self.0 }
+}
